@@ -145,6 +145,7 @@ impl Sink {
 //@item src/rtr/pdu.rs :: pub struct Header pubfields keepderive=Clone,Copy,Default
 //@item src/rtr/pdu.rs :: pub struct SerialNotify pubfields keepderive=Clone,Copy,Default
 //@item src/rtr/pdu.rs :: pub struct Ipv4Prefix pubfields keepderive=Clone,Copy,Default
+//@item src/rtr/pdu.rs :: pub struct CacheResponse pubfields keepderive=Clone,Copy,Default
 //@item src/rtr/pdu.rs :: pub struct Ipv6Prefix pubfields keepderive=Clone,Copy,Default
 //@item src/rtr/pdu.rs :: pub struct EndOfDataV0 pubfields keepderive=Clone,Copy,Default
 //@item src/rtr/pdu.rs :: pub struct EndOfDataV1 pubfields keepderive=Clone,Copy,Default
@@ -168,6 +169,7 @@ pub open spec fn wire_serial_notify(x: SerialNotify) -> Seq<u8> { hwire(x.header
 pub open spec fn wire_ipv4_prefix(x: Ipv4Prefix) -> Seq<u8> {
     hwire(x.header) + seq![x.flags, x.prefix_len, x.max_len, x.zero] + mem32(x.prefix) + mem32(x.asn)
 }
+pub open spec fn wire_cache_response(x: CacheResponse) -> Seq<u8> { hwire(x.header) }
 
 pub open spec fn wire_ipv6_prefix(x: Ipv6Prefix) -> Seq<u8> {
     hwire(x.header) + seq![x.flags, x.prefix_len, x.max_len, x.zero] + mem128(x.prefix) + mem32(x.asn)
@@ -231,6 +233,7 @@ pub mod ax {
             #[trigger] vstd::layout::size_of::<Header>() == 8,
             #[trigger] vstd::layout::size_of::<SerialNotify>() == 12,
             #[trigger] vstd::layout::size_of::<Ipv4Prefix>() == 20,
+            #[trigger] vstd::layout::size_of::<CacheResponse>() == 8,
             #[trigger] vstd::layout::size_of::<Ipv6Prefix>() == 32,
             #[trigger] vstd::layout::size_of::<EndOfDataV0>() == 12,
             #[trigger] vstd::layout::size_of::<EndOfDataV1>() == 24,
@@ -252,7 +255,6 @@ pub mod lem {
     {
         assert(a.stream().skip(0) =~= a.stream());
     }
-    /// two consecutive takes are one take
     /// the header fields as seen in the eight wire octets
     pub broadcast proof fn lemma_hwire_fields(h: Header)
         ensures
@@ -304,6 +306,12 @@ pub mod lem {
         requires 0 <= a, 0 <= b, a + b <= s.len(),
         ensures (h + s.take(a)) + s.skip(a).take(b) =~= h + s.take(a + b)
     {}
+    pub broadcast proof fn lemma_wire_cache_response(x: CacheResponse)
+        ensures (#[trigger] wire_cache_response(x)).len() == 8, wire_cache_response(x).take(8) == hwire(x.header),
+    {
+        broadcast use {super::ax::axiom_mem16_len, super::ax::axiom_mem32_len};
+        assert(wire_cache_response(x).take(8) =~= hwire(x.header));
+    }
     pub broadcast proof fn lemma_wire_ipv6_prefix(x: Ipv6Prefix)
         ensures (#[trigger] wire_ipv6_prefix(x)).len() == 32, wire_ipv6_prefix(x).take(8) == hwire(x.header),
     {
@@ -322,6 +330,7 @@ pub mod lem {
         broadcast use {super::ax::axiom_mem16_len, super::ax::axiom_mem32_len, super::ax::axiom_mem128_len};
         assert(wire_end_of_data_v1(x).take(8) =~= hwire(x.header));
     }
+    /// two consecutive takes are one take
     pub broadcast proof fn lemma_take_take(s: Seq<u8>, a: int, b: int)
         requires 0 <= a, 0 <= b, a + b <= s.len(),
         ensures #[trigger] (s.take(a) + s.skip(a).take(b)) == s.take(a + b)
@@ -329,7 +338,7 @@ pub mod lem {
         assert(s.take(a) + s.skip(a).take(b) =~= s.take(a + b));
     }
 }
-broadcast use {ax::axiom_mem16_len, ax::axiom_mem32_len, ax::axiom_mem128_len, ax::axiom_size_of_val_buf, ax::axiom_size_of_pdus, lem::lemma_advanced_trans, lem::lemma_advanced_refl, lem::lemma_take_take, lem::lemma_hwire_fields, lem::lemma_hwire_inj, lem::lemma_wire_serial_notify, lem::lemma_wire_ipv4_prefix, lem::lemma_wire_router_key_fixed, lem::lemma_wire_aspa_fixed, lem::lemma_wire_ipv6_prefix, lem::lemma_wire_end_of_data_v0, lem::lemma_wire_end_of_data_v1};
+broadcast use {ax::axiom_mem16_len, ax::axiom_mem32_len, ax::axiom_mem128_len, ax::axiom_size_of_val_buf, ax::axiom_size_of_pdus, lem::lemma_advanced_trans, lem::lemma_advanced_refl, lem::lemma_take_take, lem::lemma_hwire_fields, lem::lemma_hwire_inj, lem::lemma_wire_serial_notify, lem::lemma_wire_ipv4_prefix, lem::lemma_wire_router_key_fixed, lem::lemma_wire_aspa_fixed, lem::lemma_wire_ipv6_prefix, lem::lemma_wire_end_of_data_v0, lem::lemma_wire_end_of_data_v1, lem::lemma_wire_cache_response};
 
 use env::*;
 
@@ -465,6 +474,76 @@ impl SerialNotify {
             old(sock).stream().len() >= 8 && old(sock).stream()[1] == 10 ==> !(r matches Ok(Ok(_))) && taken(*old(sock), *final(sock)) <= 8,
             old(sock).stream().len() < 8 ==> r.is_err(),
             old(sock).stream().len() < 12 ==> !(r matches Ok(Ok(_))),
+    //@/spec
+    //@end
+}
+
+// ---- concrete!(CacheResponse): a PDU that is only a header (the tail read is an empty read_exact) ---------
+impl CacheResponse {
+    //@item src/rtr/pdu.rs :: const PDU: u8 = 3 pubfields
+    //@fn src/rtr/pdu.rs :: impl AsRef<[u8]> for $type :: as_ref external_body
+    //@spec
+        ensures r@ == wire_cache_response(*self),
+    //@/spec
+    //@end
+    //@fn src/rtr/pdu.rs :: impl AsMut<[u8]> for $type :: as_mut external_body
+    //@spec
+        ensures r@ == wire_cache_response(*old(self)), final(r)@ == wire_cache_response(*final(self)),
+    //@/spec
+    //@end
+    //@fn src/rtr/pdu.rs :: impl $type :: size
+    //@spec
+        ensures r == 8,
+    //@/spec
+    //@end
+
+    //@fn src/rtr/pdu.rs :: impl $type :: read_payload
+    //@sigsub R6 "<Sock: AsyncRead + Unpin>" ""
+    //@sub R11 "$type" "CacheResponse"
+    //@sub R12 "Header::LEN" "mem::size_of::<Header>()"
+    //@spec
+        ensures
+            advanced(*old(sock), *final(sock), taken(*old(sock), *final(sock))),
+            taken(*old(sock), *final(sock)) <= 8 - 8,
+            r matches Ok(x) ==> hlen(header) == 8 && x.header == header && taken(*old(sock), *final(sock)) == 8 - 8
+                && wire_cache_response(x) == hwire(header) + old(sock).stream().take(8 - 8),
+            hlen(header) != 8 ==> r.is_err() && taken(*old(sock), *final(sock)) == 0,
+            old(sock).stream().len() < 8 - 8 ==> r.is_err(),
+    //@/spec
+    //@end
+
+    //@fn src/rtr/pdu.rs :: impl $type :: read
+    //@sigsub R6 "<Sock: AsyncRead + Unpin>" ""
+    //@sub R11 "$type" "CacheResponse" n=2
+    //@sub R12 "Header::LEN" "mem::size_of::<Header>()"
+    //@spec
+        ensures
+            advanced(*old(sock), *final(sock), taken(*old(sock), *final(sock))),
+            taken(*old(sock), *final(sock)) <= 8,
+            r matches Ok(x) ==> x.header.pdu == 3 && hlen(x.header) == 8 && taken(*old(sock), *final(sock)) == 8
+                && wire_cache_response(x) == old(sock).stream().take(8),
+            old(sock).stream().len() >= 8 && (old(sock).stream()[1] != 3 || wire_len(old(sock).stream().take(8)) != 8)
+                ==> r.is_err() && taken(*old(sock), *final(sock)) <= 8,
+            old(sock).stream().len() < 8 ==> r.is_err(),
+    //@/spec
+    //@end
+    //@fn src/rtr/pdu.rs :: impl $type :: try_read
+    //@sigsub R6 "<Sock: AsyncRead + Unpin>" ""
+    //@sub R11 "$type" "CacheResponse" n=2
+    //@sub R12 "Header::LEN" "mem::size_of::<Header>()"
+    //@spec
+        ensures
+            advanced(*old(sock), *final(sock), taken(*old(sock), *final(sock))),
+            taken(*old(sock), *final(sock)) <= 8,
+            r matches Ok(Ok(x)) ==> x.header.pdu == 3 && hlen(x.header) == 8 && taken(*old(sock), *final(sock)) == 8
+                && wire_cache_response(x) == old(sock).stream().take(8),
+            r matches Ok(Err(h)) ==> h.pdu == 10 && taken(*old(sock), *final(sock)) == 8 && hwire(h) == old(sock).stream().take(8),
+            old(sock).stream().len() >= 8 && old(sock).stream()[1] != 10
+                && (old(sock).stream()[1] != 3 || wire_len(old(sock).stream().take(8)) != 8)
+                ==> r.is_err() && taken(*old(sock), *final(sock)) <= 8,
+            old(sock).stream().len() >= 8 && old(sock).stream()[1] == 10 ==> !(r matches Ok(Ok(_))) && taken(*old(sock), *final(sock)) <= 8,
+            old(sock).stream().len() < 8 ==> r.is_err(),
+            old(sock).stream().len() < 8 ==> !(r matches Ok(Ok(_))),
     //@/spec
     //@end
 }
